@@ -382,6 +382,9 @@ func (g *FuncGen) execBinOp(x *ssa.BinOp, st *State) error {
 			}
 			eq = fmt.Sprintf("(= (s_arr %s) 0)", s)
 		}
+		if isStringType(xt) && g.rootC != nil && g.rootC.Bytes && !g.w.useStrings {
+			g.strExt(a, b)
+		}
 		if x.Op == token.NEQ {
 			eq = "(not " + eq + ")"
 		}
@@ -513,7 +516,16 @@ func (g *FuncGen) execConvert(x *ssa.Convert, st *State) error {
 	case isFloatType(from) && isFloatType(to):
 		g.define(x, v)
 	case isStringType(to) && isIntType(from):
-		g.abstract("string(rune)")
+		if g.w.useStrings {
+			g.abstract("string(rune)")
+			break
+		}
+		// string(r): for an ASCII code point, the one-byte string holding it;
+		// otherwise only a function of r (under-specified, sound)
+		f := g.ufun("str.ofrune", "(Int) Str")
+		r := fmt.Sprintf("(%s %s)", f, v)
+		g.define(x, r)
+		g.assert(fmt.Sprintf("(=> (and (<= 0 %s) (< %s 128)) (and (= (strlen %s) 1) (= %s %s)))", v, v, r, g.strByte(r, "0"), v))
 	case isStringType(to) || isStringType(from):
 		// string <-> []byte / []rune
 		g.execStringConv(x, st)
@@ -664,16 +676,46 @@ func (g *FuncGen) execMapUpdate(x *ssa.MapUpdate, st *State) error {
 
 // Range over a map: ghost visited set, each key once in arbitrary order.
 func (g *FuncGen) execRange(x *ssa.Range, st *State) error {
-	if _, ok := x.X.Type().Underlying().(*types.Map); !ok {
-		g.bail("range over string outside the subset")
+	g.vals[x] = g.val(x.X) // the iterator is identified with the map ref / the string
+	return nil
+}
+
+// Range over a string: a ghost byte position ($pos), loop-carried. At an
+// ASCII byte the step yields that byte as the rune and advances by one, which
+// is exactly what Go does. At any other byte the rune is only known to be
+// >= 128 (a decoded code point or U+FFFD) and the position advances by one to
+// four bytes: an over-approximation of UTF-8 decoding, so nothing is assumed
+// about strings that hold multi-byte text.
+func (g *FuncGen) execNextString(x *ssa.Next, st *State) error {
+	rng, ok := x.Iter.(*ssa.Range)
+	if !ok {
+		g.bail("next on non-range")
 	}
-	g.vals[x] = g.val(x.X) // the iterator is identified with the map ref
+	head := x.Block()
+	if g.loops[head] == nil {
+		g.bail("string iteration step outside a loop head")
+	}
+	s := g.val(rng.X)
+	pos, has := g.strPos[head]
+	if !has {
+		pos = g.freshConst("pos", "Int")
+		g.strPos[head] = pos
+	}
+	okc := fmt.Sprintf("(< %s (strlen %s))", pos, s)
+	b := g.strByte(s, pos)
+	g.guardAssert(st.reach, fmt.Sprintf("(and (<= 0 %s) (<= %s (strlen %s)))", pos, pos, s))
+	g.guardAssert(st.reach, fmt.Sprintf("(and (<= 0 %s) (<= %s 255))", b, b))
+	r := g.freshConst("next.rune", "Int")
+	nx := g.freshConst("next.pos", "Int")
+	g.guardAssert(st.reach, fmt.Sprintf("(=> %s (ite (< %s 128) (and (= %s %s) (= %s (+ %s 1))) (and (>= %s 128) (<= %s 1114111) (> %s %s) (<= %s (+ %s 4)) (<= %s (strlen %s)))))", okc, b, r, b, nx, pos, r, r, nx, pos, nx, pos, nx, s))
+	g.tuples[x] = []string{okc, pos, r}
+	g.strNext[head] = nx
 	return nil
 }
 
 func (g *FuncGen) execNext(x *ssa.Next, st *State) error {
 	if x.IsString {
-		g.bail("range over string outside the subset")
+		return g.execNextString(x, st)
 	}
 	rng, ok := x.Iter.(*ssa.Range)
 	if !ok {
